@@ -51,6 +51,9 @@ def cells():
         if h.get("slow_boot"):
             c["slow_boot"] = h["slow_boot"]
         yield c
+    # two listeners: the request in flight across the HUP is on one of them, the short requests go to the first
+    for kind, which in itertools.product(KINDS, [0, 1]):
+        yield {"kind": kind, "bind": "unix", "start_workers": 1, "pre": [], "workers": [1], "hist": NHIST + which, "two_binds": which}
 
 
 def extra_cases(tier, seed, shard, nshards):
@@ -63,14 +66,16 @@ def extra_cases(tier, seed, shard, nshards):
                 seen.add((c["kind"], c["bind"]))
                 seen.add(("h", c["hist"]))
                 picked.append(c)
-        cs = (picked + [c for c in cs if c not in picked])[:32]
+        two = [c for c in cs if c.get("two_binds") is not None]       # the two-listener cells are all kept
+        picked = [c for c in picked if c not in two]
+        cs = two + (picked + [c for c in cs if c not in picked and c not in two])[:32 - len(two)]
     for i, c in enumerate(cs):
         if i % nshards == shard:
             j = int(hashlib.sha1(("%d-%d" % (seed, i)).encode()).hexdigest()[:4], 16) / 65535.0
             yield dict(c, gap=round(0.05 + 0.25 * j, 2) if c.get("slow_boot") else round(0.2 + 0.8 * j, 2))
 
 
-EXHAUSTIVE_NOTE = "thorough: all %d cells (4 classes x %d bind spellings x %d histories); quick: a seeded slice of up to 32 covering every class x bind and every history" % (4 * len(BINDS) * NHIST, len(BINDS), NHIST)
+EXHAUSTIVE_NOTE = "(+ 8 two-listener cells) thorough: all %d cells (4 classes x %d bind spellings x %d histories); quick: a seeded slice of up to 32 covering every class x bind and every history" % (4 * len(BINDS) * NHIST, len(BINDS), NHIST)
 
 
 class Load(threading.Thread):
@@ -112,9 +117,15 @@ def run_case(case):
     kind, bind = case["kind"], case["bind"]
     classes = ["kind:" + kind, "bind:" + bind, "hist:%d" % case["hist"]]
     slow = (["import time", "def post_fork(server, worker):", "    time.sleep(%s)" % case["slow_boot"]] if case.get("slow_boot") else [])
+    second = None
+    if case.get("two_binds") is not None:
+        import os as _os
+        import tempfile as _tf
+        second = _os.path.join(_tf.gettempdir(), "verif-c10-second-%d-%d.sock" % (_os.getpid(), int(time.time() * 1000) % 100000))
     srv = renv.Server(kind=kind, workers=None, bind=bind, graceful=G, timeout=30,
                       threads=2 if kind == "gthread" else None, keepalive=2,
-                      conf_lines=["workers = %d" % case["start_workers"], "raw_env = ['VERIF_MARKER=m0']"] + slow)
+                      conf_lines=["workers = %d" % case["start_workers"], "raw_env = ['VERIF_MARKER=m0']"] + slow,
+                      extra_binds=["unix:" + second] if second else ())
     vio = []
 
     def V(clause, sig, observed=None, expected=None):
@@ -133,7 +144,12 @@ def run_case(case):
         load.start()
         time.sleep(0.3)
         # long request in flight across the first HUP
-        lc = srv.connect()
+        if case.get("two_binds") == 1:
+            first_addr, srv.addr = srv.addr, second
+            lc = srv.connect()
+            srv.addr = first_addr
+        else:
+            lc = srv.connect()
         lc.sendall(b"GET /gate/L1 HTTP/1.1\r\nHost: x\r\nConnection: close\r\n\r\n")
         if not srv.started("L1"):
             return Outcome([], False, classes + ["inconclusive:long-request-not-started"], sample={"case": case})
@@ -201,3 +217,8 @@ def run_case(case):
         if load is not None:
             load.stop = True
         srv.cleanup()
+        if second:
+            try:
+                __import__("os").unlink(second)
+            except OSError:
+                pass
